@@ -31,7 +31,7 @@ use serde_json::{json, Value};
 use vh::{jumbf_walk as jw, rng::SplitMix64, sdk, CaseResult, Fail, Run};
 
 /// (kind for the toolkit, source): synthesised or fixture
-const ASSETS: [(&str, &str); 9] = [
+const ASSETS: [(&str, &str); 10] = [
     ("jpeg", "synth"),
     ("png", "synth"),
     ("mp4", "synth"),
@@ -41,10 +41,32 @@ const ASSETS: [(&str, &str); 9] = [
     ("jpeg", "no_manifest.jpg"),
     ("png", "libpng-test.png"),
     ("mp4", "video1_no_manifest.mp4"),
+    ("gif", "synth"),
 ];
+/// asset indices of the quick tier (synthesised only)
+const QUICK_ASSETS: [u8; 7] = [0, 1, 2, 3, 4, 5, 9];
+/// assets bound by a data hash (insertions next to the manifest container apply to these)
+const DATA_HASH_ASSETS_QUICK: [u8; 3] = [0, 1, 9];
+const DATA_HASH_ASSETS: [u8; 5] = [0, 1, 9, 6, 7];
 
 const ALLOWED_EXTRA: [&str; 3] = ["", "c2pa.published", "c2pa.edited.metadata"];
-const DISALLOWED: [&str; 8] = ["c2pa.edited", "c2pa.cropped", "c2pa.color_adjustments", "c2pa.resized", "c2pa.filtered", "c2pa.drawing", "c2pa.transcoded", "c2pa.unknown"];
+const DISALLOWED: [&str; 17] = [
+    "c2pa.edited", "c2pa.cropped", "c2pa.color_adjustments", "c2pa.resized", "c2pa.filtered", "c2pa.drawing", "c2pa.transcoded", "c2pa.unknown",
+    // not in the c2pa namespace: vendor (reverse-DNS) names, names without namespace, names that merely start with "c2pa"
+    "com.example.retouch", "org.example.inpaint", "com.adobe.photoshop.liquify", "retouch", ".retouch", "c2paX.foo", "c2pa", "C2PA.published", "c2pa.edited.metadata.extra",
+];
+
+fn action_class(a: &str) -> &'static str {
+    if a.starts_with("c2pa.") {
+        "c2pa-name"
+    } else {
+        "non-c2pa-name"
+    }
+}
+
+fn pick_action(variant: u8) -> &'static str {
+    DISALLOWED[variant as usize / 2 % DISALLOWED.len()]
+}
 
 const BREAKERS: [&str; 14] = [
     "none",
@@ -88,7 +110,7 @@ struct Case {
 
 fn family(kind: &str) -> &'static str {
     match kind {
-        "jpeg" | "png" => "data-hash",
+        "jpeg" | "png" | "gif" => "data-hash",
         _ => "bmff-hash",
     }
 }
@@ -211,7 +233,73 @@ fn protected_positions(kind: &str, bytes: &[u8]) -> Vec<(usize, usize)> {
     }
 }
 
-fn mutate(kind: &str, bytes: &[u8], m: &Mutn) -> Option<(Vec<u8>, usize)> {
+fn ascii_filler(n: usize, seed: u32) -> Vec<u8> {
+    let mut r = SplitMix64::new(seed as u64 ^ 0xF111);
+    (0..n).map(|_| b'a' + (r.below(26) as u8)).collect()
+}
+
+/// A well-formed, ignorable structure of the container of (about) `len` bytes: JPEG COM / APP13 segment, PNG tEXt /
+/// private ancillary chunk with correct CRC, GIF comment / application extension.
+fn ignorable_unit(kind: &str, len: usize, alt: bool, seed: u32) -> Option<Vec<u8>> {
+    match kind {
+        "jpeg" => {
+            let len = len.clamp(4, 65_000);
+            let mut v = vec![0xff, if alt { 0xed } else { 0xfe }, ((len - 2) >> 8) as u8, ((len - 2) & 0xff) as u8];
+            v.extend(ascii_filler(len - 4, seed));
+            Some(v)
+        }
+        "png" => {
+            let len = len.max(12);
+            let n = len - 12;
+            let (ty, data): (&[u8; 4], Vec<u8>) = if alt || n < 2 {
+                (b"vrFy", ascii_filler(n, seed))
+            } else {
+                let mut d = b"k\0".to_vec();
+                d.extend(ascii_filler(n - 2, seed));
+                (b"tEXt", d)
+            };
+            let mut v = (data.len() as u32).to_be_bytes().to_vec();
+            let mut body = ty.to_vec();
+            body.extend(&data);
+            v.extend(&body);
+            v.extend(vh::assets::crc32(&body).to_be_bytes());
+            Some(v)
+        }
+        "gif" => {
+            let mut v = if alt {
+                let mut h = vec![0x21, 0xff, 0x0b];
+                h.extend_from_slice(b"VERIFHRN1.0");
+                h
+            } else {
+                vec![0x21, 0xfe]
+            };
+            let data = ascii_filler(len.saturating_sub(v.len() + 2), seed);
+            for ch in data.chunks(255) {
+                v.push(ch.len() as u8);
+                v.extend_from_slice(ch);
+            }
+            v.push(0);
+            Some(v)
+        }
+        _ => None,
+    }
+}
+
+/// (mutated bytes, position, description). how < 10: one protected byte changed; how >= 10: a well-formed ignorable unit
+/// inserted immediately before (even) or after (odd) the manifest container, length 4..300 from `sel`.
+fn mutate(kind: &str, bytes: &[u8], m: &Mutn) -> Option<(Vec<u8>, usize, String)> {
+    if m.how >= 10 {
+        let before = m.how % 2 == 0;
+        let alt = (m.how / 2) % 2 == 1;
+        let len = 4 + (m.sel as usize % 297);
+        let unit = ignorable_unit(kind, len, alt, m.sel)?;
+        let mut spans: Vec<(usize, usize)> = vh::walk::manifest_spans(kind, bytes).ok()?.iter().map(|(s, l)| (*s, s + l)).collect();
+        spans.sort();
+        let pos = if before { spans.first()?.0 } else { spans.last()?.1 };
+        let mut v = bytes.to_vec();
+        v.splice(pos..pos, unit.iter().copied());
+        return Some((v, pos, format!("inserted:{}:{}", if before { "before-store" } else { "after-store" }, unit.len())));
+    }
     let ranges = protected_positions(kind, bytes);
     let total: usize = ranges.iter().map(|(s, e)| e - s).sum();
     if total == 0 {
@@ -228,7 +316,7 @@ fn mutate(kind: &str, bytes: &[u8], m: &Mutn) -> Option<(Vec<u8>, usize)> {
     }
     let mut v = bytes.to_vec();
     let old = v[pos];
-    v[pos] = match m.how % 10 {
+    v[pos] = match m.how {
         b @ 0..=7 => old ^ (1 << b),
         8 => {
             if old == 0 {
@@ -239,7 +327,7 @@ fn mutate(kind: &str, bytes: &[u8], m: &Mutn) -> Option<(Vec<u8>, usize)> {
         }
         _ => old.wrapping_add(1),
     };
-    Some((v, pos))
+    Some((v, pos, "byte-changed".into()))
 }
 
 enum Outcome {
@@ -317,8 +405,8 @@ fn apply_breaker(run: &Run, c: &Case, kind: &str, fmt: &str, cur: &[u8], origina
         "api-no-ingredient" => upd(opened_only(vec![]), vec![]),
         "api-component-only" => upd(opened_only(vec![]), vec![unsigned_png(seed)]),
         "api-disallowed-action" => {
-            let a = DISALLOWED[c.variant as usize / 2 % DISALLOWED.len()];
-            run.count(&format!("disallowed_action_{a}"));
+            let a = pick_action(c.variant);
+            run.count(&format!("disallowed_action_api:{a}"));
             let mut d = plain.clone();
             d["assertions"].as_array_mut().unwrap().push(json!({"label": "c2pa.actions", "data": {"actions": [{"action": a}]}}));
             upd(d, vec![])
@@ -341,7 +429,9 @@ fn apply_breaker(run: &Run, c: &Case, kind: &str, fmt: &str, cur: &[u8], origina
             } else {
                 let mut d = plain.clone();
                 if name == "retype-edit-manifest-with-edited-action" {
-                    d["assertions"].as_array_mut().unwrap().push(json!({"label": "c2pa.actions", "data": {"actions": [{"action": "c2pa.edited"}]}}));
+                    let a = pick_action(c.variant);
+                    run.count(&format!("disallowed_action_retyped:{a}"));
+                    d["assertions"].as_array_mut().unwrap().push(json!({"label": "c2pa.actions", "data": {"actions": [{"action": a}]}}));
                 }
                 let ing = if name == "retype-edit-manifest-with-component" { vec![unsigned_png(seed)] } else { vec![] };
                 vh::catch(|| sign(&Spec { fmt, src: cur, def: d, intent: BuilderIntent::Edit, ingredients: ing, verify_after_sign: true }))
@@ -474,8 +564,8 @@ fn judge(run: &Run, c: &Case) -> CaseResult {
                 } else if st == "Valid" || st == "Trusted" {
                     let tag = r.as_ref().and_then(|r| active_box_tag(fmt, &b, r.active_label().unwrap_or("")));
                     return Err(Fail::new(
-                        format!("C21:rule-breaker-reported-valid:{bname}"),
-                        format!("{bname} on {alabel} (seed {}, {} earlier updates, active box {tag:?}) reads {st}", c.aseed, c.updates.len()),
+                        if bname == "api-disallowed-action" || bname == "retype-edit-manifest-with-edited-action" { format!("C21:rule-breaker-reported-valid:{bname}:{}", action_class(pick_action(c.variant))) } else { format!("C21:rule-breaker-reported-valid:{bname}") },
+                        format!("{bname} on {alabel} (seed {}, {} earlier updates, variant {} [action {}], active box {tag:?}) reads {st}", c.aseed, c.updates.len(), c.variant, pick_action(c.variant)),
                     ));
                 }
                 subject = b;
@@ -496,14 +586,26 @@ fn judge(run: &Run, c: &Case) -> CaseResult {
             return Ok(());
         }
         match mutate(&kind, &subject, m) {
-            None => run.count("mutation_no_protected_bytes"),
-            Some((mutated, pos)) => {
-                let (st, _) = read_state(fmt, &mutated);
-                run.count(&format!("mutation_after_{}_{}:{}", c.updates.len(), if bname == "none" { "wellformed" } else { "breaker" }, st.split(':').next().unwrap_or("")));
+            None => run.count(if m.how >= 10 { "insertion_not_applicable" } else { "mutation_no_protected_bytes" }),
+            Some((mutated, pos, desc)) => {
+                let (st, rr) = read_state(fmt, &mutated);
+                let ins = desc.starts_with("inserted");
+                if ins {
+                    let mut codes = rr.as_ref().map(sdk::failure_codes).unwrap_or_default();
+                    codes.dedup();
+                    run.count(&format!("insertion_{kind}_{}_codes[{}]", if c.updates.is_empty() { "no-update" } else { "with-update" }, codes.join("+")));
+                }
+                let dclass = desc.rsplitn(2, ':').last().unwrap_or("").to_string();
+                run.count(&format!("{}_after_{}_{}:{}", if ins { dclass.as_str() } else { "mutation" }, c.updates.len(), if bname == "none" { "wellformed" } else { "breaker" }, st.split(':').next().unwrap_or("")));
                 if st == "Valid" || st == "Trusted" {
+                    let sig = if ins {
+                        format!("C21:content-{dclass}-valid:{}{}", if c.updates.is_empty() { "no-update-manifest" } else { "with-update-manifest" }, if bname == "none" { String::new() } else { format!(":{bname}") })
+                    } else {
+                        format!("C21:content-change-after-update-valid:{fam}{}", if bname == "none" { String::new() } else { format!(":{bname}") })
+                    };
                     return Err(Fail::new(
-                        format!("C21:content-change-after-update-valid:{fam}{}", if bname == "none" { String::new() } else { format!(":{bname}") }),
-                        format!("byte {pos} of {alabel} (seed {}, {} updates, breaker {bname}) changed ({:?}) and the asset still reads {st}", c.aseed, c.updates.len(), m),
+                        sig,
+                        format!("{desc} at byte {pos} of {alabel} (seed {}, {} updates, breaker {bname}, {:?}) and the asset still reads {st}", c.aseed, c.updates.len(), m),
                     ));
                 }
             }
@@ -515,14 +617,14 @@ fn judge(run: &Run, c: &Case) -> CaseResult {
 fn main() {
     vh::quiet_panics();
     let run = Run::from_args("C21", "exploration");
-    run.set_rule("case = (asset: synthesised jpeg/png/mp4/mov/avif/heic or fixture jpeg/png/mp4, signed with a Create manifest; 0..2 well-formed update manifests through BuilderIntent::Update with optional custom assertion and optional allowed action; optional rule-breaker (6 Update-builder misuses, 4 standard manifests re-typed c2ma->c2um at byte level, 3 craft_store graphs); optional mutation of one protected media byte after the last step). Non-trivial = a rule-breaker, or a content mutation after at least one update.");
+    run.set_rule("case = (asset: synthesised jpeg/png/gif/mp4/mov/avif/heic or fixture jpeg/png/mp4, signed with a Create manifest; 0..2 well-formed update manifests through BuilderIntent::Update with optional custom assertion and optional allowed action; optional rule-breaker (6 Update-builder misuses, 4 standard manifests re-typed c2ma->c2um at byte level, 3 craft_store graphs); optional content mutation after the last step: one protected media byte changed, or a well-formed ignorable unit of 4..300 bytes (JPEG COM/APP13 segment, PNG tEXt/private chunk with CRC, GIF comment/application extension) inserted immediately before or after the manifest container). Disallowed action names cover c2pa.* and names outside the c2pa namespace. Non-trivial = a rule-breaker, or a content mutation after at least one update.");
     run.assume("protected bytes: data hash = every byte outside the manifest container located by the independent walker; BMFF = payload bytes of top-level mdat boxes (never excluded by the default exclusions, Merkle off)");
     run.assume("a sign-time rejection of a rule-breaker counts as 'never reported Valid'; craft-update-one-parent-unbound is recorded only (its parent has no hard binding by construction of the hook)");
 
     // ---- enumeration: every breaker on jpeg, png and mp4 with 0 and 1 earlier updates; plain update chains on every asset ----
     let mut cases = vec![];
-    let n_assets = if run.quick() { 6 } else { ASSETS.len() };
-    for a in 0..n_assets as u8 {
+    let asset_list: Vec<u8> = if run.quick() { QUICK_ASSETS.to_vec() } else { (0..ASSETS.len() as u8).collect() };
+    for &a in &asset_list {
         for n in 0..=2usize {
             let updates: Vec<Upd> = (0..n).map(|i| Upd { extra_action: ((a as usize + i) % 3) as u8, note: (a as usize + i) % 2 == 0 }).collect();
             for (mi, how) in [(0u32, 0u8), (7919, 8), (104729, 9)].iter().enumerate() {
@@ -542,21 +644,55 @@ fn main() {
             }
         }
     }
+    // every disallowed action name (c2pa.* and names outside the c2pa namespace) through the Update builder and in a
+    // standard manifest re-typed as update manifest
+    for (ai, _) in DISALLOWED.iter().enumerate() {
+        for b in [5u8, 8] {
+            for a in [0u8, 1] {
+                if run.quick() && (ai + a as usize) % 2 == 1 {
+                    continue;
+                }
+                let n = (ai + b as usize) % 2;
+                let updates: Vec<Upd> = (0..n).map(|_| Upd { extra_action: 0, note: true }).collect();
+                cases.push(Case { asset: a, aseed: (run.seed as u16) ^ (0x5D00 + ai as u16 * 8 + b as u16), updates, breaker: b, variant: (ai as u8) * 2 + (a + b) % 2, mutation: None });
+            }
+        }
+    }
+    // well-formed ignorable units inserted immediately before / after the manifest container, with and without update
+    // manifests (data-hash assets)
+    let dh: Vec<u8> = if run.quick() { DATA_HASH_ASSETS_QUICK.to_vec() } else { DATA_HASH_ASSETS.to_vec() };
+    for &a in &dh {
+        for n in 0..=2usize {
+            let updates: Vec<Upd> = (0..n).map(|i| Upd { extra_action: ((a as usize + i) % 3) as u8, note: i % 2 == 0 }).collect();
+            for (li, len) in [4u32, 5, 12, 16, 65, 130, 259, 300].iter().enumerate() {
+                for how in 10u8..14 {
+                    if run.quick() && (li + how as usize + n + a as usize) % 3 != 0 {
+                        continue;
+                    }
+                    cases.push(Case { asset: a, aseed: (run.seed as u16).wrapping_add(0x1115 + a as u16 * 7 + n as u16), updates: updates.clone(), breaker: 0, variant: 0, mutation: Some(Mutn { sel: len - 4 + 297 * (li as u32 + how as u32), how }) });
+                }
+            }
+        }
+    }
     let threads = if run.quick() { 6 } else { 12 };
     run.drive_enum_par("enumerated", cases, threads, |c| judge(&run, c));
 
     // ---- random ----
     let upd = (0u8..3, any::<bool>()).prop_map(|(extra_action, note)| Upd { extra_action, note });
-    let mutn = (any::<u32>(), 0u8..10).prop_map(|(sel, how)| Mutn { sel, how });
-    let n_assets = n_assets as u8;
-    let strat = (0..n_assets, any::<u16>(), proptest::collection::vec(upd, 0..=2), 0u8..28, any::<u8>(), proptest::option::weighted(0.7, mutn)).prop_map(|(asset, aseed, updates, breaker, variant, mutation)| Case {
-        asset,
+    let mutn = (any::<u32>(), 0u8..16).prop_map(|(sel, how)| Mutn { sel, how: if how >= 14 { how - 4 } else { how } });
+    let al = asset_list.clone();
+    let strat = (0..al.len(), any::<u16>(), proptest::collection::vec(upd, 0..=2), 0u8..28, any::<u8>(), proptest::option::weighted(0.7, mutn)).prop_map(|(asset, aseed, updates, breaker, variant, mutation)| Case {
+        asset: asset as u8,
         aseed,
         updates,
         // half of the cases are well-formed chains
         breaker: if breaker < 14 { 0 } else { breaker - 14 },
         variant,
         mutation,
+    });
+    let strat = strat.prop_map(move |mut c| {
+        c.asset = al[c.asset as usize % al.len()];
+        c
     });
     run.drive_par("random", run.scale(160, 4800), threads, strat, |c| judge(&run, c));
     let ok = run.hist_get("wellformed_update_ok_bmff-hash") + run.hist_get("wellformed_update_ok_data-hash");
